@@ -28,7 +28,7 @@ I, B = z3.IntSort(), z3.BoolSort()
 
 class Rule:
     """J(E, vars, ENT, LEFT, ctx) -> z3 Bool;  Qe/Ql(E, vars, x, val, ctx) -> z3 Bool / bool;  `modifies`: expressions (in the
-    caller's frame) of the state the callbacks may change;  enter_kind / leave_kind: kind of the callback results
+    caller's frame; or callables E -> object) of the state the callbacks may change;  enter_kind / leave_kind: kind of the callback results
     ('bool' | 'int' | 'real' | 'oref' | callable(E) -> fresh symbolic value);  leave_args_kind likewise for the list elements."""
 
     def __init__(self, J, Qe=None, Ql=None, modifies=(), enter_kind="oref", leave_kind="oref", depth=None, label="traverse",
@@ -162,6 +162,9 @@ def apply(eng, rule: Rule, fr, topology, enter, leave, root):
         out = []
         for m in rule.modifies:
             if isinstance(m, tuple) and m[0] == "local":
+                continue
+            if callable(m):  # fn(E) -> the (ghost) object itself, for state that is not reachable by name from the client's frame
+                out.append(m(eng))
                 continue
             hint = None
             if isinstance(m, tuple):  # ("expr", element kinds): a still-concrete list / dict is promoted to a symbolic one of that element type
